@@ -10,8 +10,10 @@ and evaluates the property's clauses; (3) TLAPS lemmas (thorough tier)."""
 from __future__ import annotations
 
 import multiprocessing as mp
+import os
 import random
 import shutil
+import signal
 import subprocess
 import tempfile
 import time
@@ -34,7 +36,7 @@ META = {
     "compute_third_mandelstam / Kibble.doit() / is_within_phasespace(outside_value=o) / Kallen.doit() returned, "
     "exhaustively over all integer (sigma1, sigma2) of the bounding boxes of integer mass configurations "
     "(m0 <= 7) and over stratified lattice events (massless, equal masses, boundary); the reference itself is "
-    "model-checked on the whole lattice (Kibble <= 0 <=> inside PDG limits for m0 <= 7/9; sigma1*Kibble = m0^2*Disc).",
+    "model-checked on the whole lattice (Kibble <= 0 <=> inside PDG limits for every integer configuration with m0 <= 6 (quick) / 9 (thorough); sigma1*Kibble = m0^2*Disc).",
     "note": "Trusted: TLC/SANY, SymPy exact arithmetic for evaluating the implementation, the projection to integers "
     "(ps3_common.enc_*). Bounds: integer masses m0 <= 7 (quick: the 70 configurations with m0 <= 5 and 10 larger ones; thorough: all 210) and integer "
     "(sigma1, sigma2) — half-integer points are the integer points of the doubled configuration; events from "
@@ -245,34 +247,54 @@ def run_tlaps(chk, module: str, timeout: int) -> dict:
     t0 = time.time()
     try:
         shutil.copy(tlc.SPEC_DIR / f"{module}.tla", tmp)
+        src_lines = (tlc.SPEC_DIR / f"{module}.tla").read_text().splitlines()
         try:
-            p = subprocess.run(["tlapm", "--toolbox", "0", "0", f"{module}.tla"], cwd=tmp, capture_output=True, text=True, timeout=timeout)
-            out = p.stdout + p.stderr
-            timed_out = False
-        except subprocess.TimeoutExpired as e:
-            out = (e.stdout or b"").decode(errors="replace") + (e.stderr or b"").decode(errors="replace") if isinstance(e.stdout, bytes) or isinstance(e.stderr, bytes) else str(e.stdout or "") + str(e.stderr or "")
-            timed_out = True
-            subprocess.run(["pkill", "-f", str(tmp)], check=False)
+            env = dict(os.environ, TMPDIR=str(tmp))
+            p = subprocess.Popen(["tlapm", "--toolbox", "0", "0", f"{module}.tla"], cwd=tmp, stdout=subprocess.PIPE, stderr=subprocess.STDOUT,
+                                 text=True, start_new_session=True, env=env)
+            try:
+                out, _ = p.communicate(timeout=timeout)
+                timed_out = False
+            except subprocess.TimeoutExpired:
+                os.killpg(p.pid, signal.SIGKILL)  # tlapm and every back-end process it started
+                out, _ = p.communicate()
+                timed_out = True
         except FileNotFoundError:
             return {"available": False}
     finally:
         shutil.rmtree(tmp, ignore_errors=True)
-    # last status per obligation id
+    # last status per obligation id; obligations are named after the enclosing THEOREM/LEMMA
     status: dict[str, str] = {}
+    where: dict[str, int] = {}
     cur = {}
     for ln in out.splitlines():
         if ln.startswith("@!!BEGIN"):
             cur = {}
         elif ln.startswith("@!!id:"):
             cur["id"] = ln[6:].strip()
+        elif ln.startswith("@!!loc:"):
+            cur["line"] = int(ln[7:].split(":")[0])
         elif ln.startswith("@!!status:"):
             cur["status"] = ln[10:].strip()
         elif ln.startswith("@!!END"):
             if "id" in cur and "status" in cur:
                 status[cur["id"]] = cur["status"]
+                where[cur["id"]] = cur.get("line", where.get(cur["id"], 0))
+    names = []
+    for n, ln in enumerate(src_lines, 1):
+        if ln.startswith(("THEOREM", "LEMMA")):
+            names.append((n, ln.split()[1]))
+
+    def name_of(line):
+        best = "?"
+        for n, nm in names:
+            if n <= line:
+                best = nm
+        return f"{best}@line{line}"
+
     proved = sum(1 for s in status.values() if s in ("proved", "trivial"))
     res = {"available": True, "obligations": len(status), "discharged": proved, "timed_out": timed_out,
-           "not_proved": sorted(k for k, s in status.items() if s not in ("proved", "trivial")), "wall_s": round(time.time() - t0, 1),
+           "not_proved": sorted(name_of(where[k]) for k, s in status.items() if s not in ("proved", "trivial")), "wall_s": round(time.time() - t0, 1),
            "cmd": f"tlapm --toolbox 0 0 {module}.tla"}
     return res
 
@@ -288,7 +310,7 @@ def run(chk, replay=None):
     )
     # 1. the reference on its own lattice ------------------------------------------------------
     if not replay:
-        res = tlc.run("PhaseSpace3_MC", MC_CFG.format(maxm0=9 if tier == "thorough" else 7, kalr=10 if tier == "thorough" else 6, kalb=5),
+        res = tlc.run("PhaseSpace3_MC", MC_CFG.format(maxm0=9 if tier == "thorough" else 6, kalr=10 if tier == "thorough" else 6, kalb=5),
                       workers=6, fast_start=False, timeout=1500)
         chk.add_tlc("reference_exhaustive", res)
         if not res.ok:
@@ -376,7 +398,7 @@ def run(chk, replay=None):
             raise Machinery(f"binding demonstration: the uncorrupted records are rejected {ok.rejects}")
         chk.part("binding_demo", corrupted=[c for c, _ in demo], rejected=sorted(f"{c}@{i}" for c, i in got))
         # 5. TLAPS ------------------------------------------------------------------------------------
-        tl = run_tlaps(chk, "PhaseSpace3_Proofs", timeout=420)
+        tl = run_tlaps(chk, "PhaseSpace3_Proofs", timeout=700)
         chk.part("tlaps", **tl)
         if tl.get("available") and (tl["timed_out"] or tl["not_proved"]):
             chk.note(f"TLAPS: {tl['discharged']}/{tl['obligations']} obligations discharged; not proved (reported, model-checked instead): {tl['not_proved']}")
